@@ -321,6 +321,15 @@ def unpack_other(ex, v, n, node):
 
 
 def call_opaque(ex, fn, args, kwargs, node):
+    if fn.cls == 'function':
+        # a user-supplied callable: logged in the ghost call sequence; may return or raise anything
+        c = ex.cell(VPtr(0))
+        ex.setcell(VPtr(0), ListCell(z3.Concat(c.seq, z3.Unit(fn.t)), 'ref'))
+        ex.used_assumptions.add('A-CALLBACK: a user callable either returns or raises an Exception; it does not touch the listener')
+        sel = z3.Bool(ex.fresh_name('cb_raises'))
+        if ex.branch(sel):
+            ex.raise_('Exception', node)
+        return VOpaque(z3.Const(ex.fresh_name('cbret'), RefSort), 'object')
     ex.limit(f'call of opaque {fn}', node)
 
 
@@ -1358,3 +1367,8 @@ def _file_write(ex, fn, args, kw, node):
 @builtin('http.client.responses.get')
 def _http_responses_get(ex, fn, args, kw, node):
     return VStr(z3.String(ex.fresh_name('reason')))
+
+
+@builtin('time.sleep')
+def _sleep(ex, fn, args, kw, node):
+    return NONE
